@@ -43,7 +43,7 @@ pub struct World<'a> {
 }
 
 fn tok(m: &Match) -> Value {
-    json!([m.token_type(), m.start(), m.end()])
+    json!([crate::ttmap::abs(m.token_type()), m.start(), m.end()])
 }
 
 pub fn panic_msg(e: Box<dyn std::any::Any + Send>) -> String {
@@ -77,8 +77,9 @@ impl<'a> World<'a> {
                     if let Some(h) = h {
                         if let Some(It::Plain(f)) = self.iters.get(h) {
                             let st = f.verif_state();
+                            // ... and what the public `offset()` reports
                             v["st"] = json!({"offset": st.offset, "last_position": st.last_position, "last_nl": st.last_char == '\n',
-                                "line_offsets": st.line_offsets});
+                                "line_offsets": st.line_offsets, "offset_fn": f.offset()});
                         }
                     }
                 }
@@ -135,7 +136,9 @@ impl<'a> World<'a> {
                     None => self.word(&ev["w"]),
                 };
                 let input = intern(&text);
+                // an abstract offset >= 1 000 000 stands for usize::MAX (TLC's integers are 32 bit)
                 let off = ev["off"].as_u64().unwrap_or(0) as usize;
+                let off = if off >= 1_000_000 { usize::MAX } else { off };
                 let mut fm = self.scanners[s].find_iter(input);
                 if off > 0 || ev.get("with").and_then(|b| b.as_bool()).unwrap_or(false) {
                     fm = fm.with_offset(off);
@@ -155,7 +158,7 @@ impl<'a> World<'a> {
             "next" => {
                 let (res, mode) = match &mut self.iters[h.unwrap()] {
                     It::Plain(f) => (f.next().map(|m| tok(&m)), f.current_mode()),
-                    It::Pos(f) => (f.next().map(|m| json!([m.token_type(), m.start(), m.end()])), f.current_mode()),
+                    It::Pos(f) => (f.next().map(|m| json!([crate::ttmap::abs(m.token_type()), m.start(), m.end()])), f.current_mode()),
                 };
                 json!({"res": res.unwrap_or(json!([])), "mode": mode})
             }
@@ -164,7 +167,7 @@ impl<'a> World<'a> {
                     let r = f.next();
                     let mode = f.current_mode();
                     match r {
-                        Some(m) => json!({"res": [m.token_type(), m.start(), m.end()], "mode": mode,
+                        Some(m) => json!({"res": [crate::ttmap::abs(m.token_type()), m.start(), m.end()], "mode": mode,
                             "sp": [m.start_position().line, m.start_position().column],
                             "ep": [m.end_position().line, m.end_position().column]}),
                         None => json!({"res": [], "mode": mode, "sp": [], "ep": []}),
@@ -184,7 +187,10 @@ impl<'a> World<'a> {
                 }
             },
             "peek" => {
+                // C11 quantifies over all n; TLC's integers are 32 bit: an abstract n >= 1 000 000 stands
+                // for usize::MAX ("peek everything that is left")
                 let n = ev["n"].as_u64().unwrap() as usize;
+                let n = if n >= 1_000_000 { usize::MAX } else { n };
                 match &mut self.iters[h.unwrap()] {
                     It::Plain(f) => {
                         let r = f.peek_n(n);
@@ -222,22 +228,24 @@ impl<'a> World<'a> {
             }
             "setoffset" => {
                 let o = ev["o"].as_u64().unwrap() as usize;
+                // an abstract offset >= 1 000 000 stands for usize::MAX; the path is chosen by the abstract one
+                let c = if o >= 1_000_000 { usize::MAX } else { o };
                 let mode = match &mut self.iters[h.unwrap()] {
                     It::Plain(f) => {
                         // the three public paths: the consuming builder `with_offset` on the used
                         // iterator, the PositionProvider trait method and the inherent method
                         if o % 3 == 2 {
                             let old = std::mem::replace(f, self.scanners[0].find_iter(""));
-                            *f = old.with_offset(o);
+                            *f = old.with_offset(c);
                         } else if o % 2 == 0 {
-                            PositionProvider::set_offset(f, o);
+                            PositionProvider::set_offset(f, c);
                         } else {
-                            f.set_offset(o);
+                            f.set_offset(c);
                         }
                         f.current_mode()
                     }
                     It::Pos(f) => {
-                        f.set_offset(o);
+                        f.set_offset(c);
                         f.current_mode()
                     }
                 };
